@@ -39,6 +39,14 @@ func genC20(t *rapid.T) C20Case {
 	cfg.SingleLetters = rapid.IntRange(0, 1).Draw(t, "sl")
 	cfg.NumberedNames = true
 	spec := GenProg(t, cfg)
+	// the caller's map / slice variable may already hold entries when it is handed to the definition
+	spec.Walk(func(path string, c *CmdSpec, _ []*CmdSpec) {
+		for i := range c.Opts {
+			if c.Opts[i].UseVar && c.Opts[i].Kind.IsMulti() {
+				c.Opts[i].PreFill = rapid.Bool().Draw(t, "prefill")
+			}
+		}
+	})
 	ac := DefaultArgvCfg()
 	ac.Unknown = 5
 	ac.Hostile = 3 // ambiguous prefixes such as --ver, --h
